@@ -3,7 +3,8 @@
 
 use serde::{Deserialize, Serialize};
 use serde_json::{json, Value};
-use similar::algorithms::{diff_deadline, Compact, NoFinishHook, Replace};
+use crate::simenv::diff_deadline;
+use similar::algorithms::{Compact, NoFinishHook, Replace};
 
 use crate::engine::{guarded, Agg, Prop, RunOut, Tier};
 use crate::gen::{gen_seq_case, shrink_seq, SeqCase, Size};
@@ -668,9 +669,14 @@ impl Prop for C08 {
     }
     fn exec(&self, case: &Case) -> RunOut {
         let mut out = RunOut::default();
+        let _ = crate::simenv::take_route_use();
         if let Err(f) = self.exec_inner(case, &mut out) {
             out.fail = Some(f);
         }
+        let ru = crate::simenv::take_route_use();
+        out.count("raw_diffs_via_algorithms::diff_deadline", ru[0]);
+        out.count("raw_diffs_via_algorithms::diff(no deadline)", ru[1]);
+        out.count("raw_diffs_via_module_level_functions(myers::diff etc.)", ru[2]);
         out
     }
     fn focus(&self, case: &Case, fail: &Fail) -> Case {
@@ -721,6 +727,8 @@ impl Prop for C08 {
     fn reach(&self, agg: &Agg) -> Vec<(&'static str, u64)> {
         let c = |k: &str| agg.counters.get(k).copied().unwrap_or(0);
         vec![
+            ("raw_diffs_via_algorithms::diff(no deadline)", agg.counters.get("raw_diffs_via_algorithms::diff(no deadline)").copied().unwrap_or(0)),
+            ("raw_diffs_via_module_level_functions", agg.counters.get("raw_diffs_via_module_level_functions(myers::diff etc.)").copied().unwrap_or(0)),
             ("hook_error_in_finish", agg.faults[F_FAIL_FINISH]),
             ("hook_error_inside_Compact_replay", agg.faults[F_FAIL_IN_COMPACT_REPLAY]),
             ("hook_error_with_deadline_expiry", agg.faults[F_FAIL_WITH_EXPIRY]),
